@@ -100,7 +100,7 @@ CHECKS = {
     ),
     "C05": dict(
         level="exploration",
-        text="Thin: 5643 enumerated cases (source type x target type over Bit and BitVector/Unsigned/Signed[1,2,3,4,7,8], int / Null / Full / bool / str literals) x assignment form (<<=, .next, @=, .value, ^=, .push, slice target, array element, typed-view targets on signals and variables, if-expression merge, function-return merge, initialisation, port connection). Cases the statement says must be rejected have to be rejected by the compiler; accepted cases are simulated over ALL source values under seeded process order and the target must hold the represented value (zero / sign extension, bit copy); an accepted case whose VHDL fails a type/width rule of the elaborator is flagged. Sources are plain ports, typed views of ports, of signals / variables constructed inside the process, and operator results; both branches of every merge (if-expression, multi-return helper) are exercised, also with Null / Full as the other branch. Declarations with an initial value inside the process (Variable[T](src), Signal[T](src), Temporary[T](src)) are assignment forms of the matrix too.",
+        text="Thin: 5643 enumerated cases (source type x target type over Bit and BitVector/Unsigned/Signed[1,2,3,4,7,8], int / Null / Full / bool / str literals) x assignment form (<<=, .next, @=, .value, ^=, .push, slice target, array element, typed-view targets on signals and variables, if-expression merge, function-return merge, initialisation, port connection). Cases the statement says must be rejected have to be rejected by the compiler; accepted cases are simulated over ALL source values under seeded process order and the target must hold the represented value (zero / sign extension, bit copy); an accepted case whose VHDL fails a type/width rule of the elaborator is flagged. Sources are plain ports, typed views of ports, of signals / variables constructed inside the process, and operator results; both branches of every merge (if-expression, multi-return helper) are exercised, also with Null / Full as the other branch. Declarations with an initial value inside the process (Variable[T](src), Signal[T](src), Temporary[T](src)) are assignment forms of the matrix too. Typed constant objects (BitVector[n] / Unsigned[n] / Signed[n] literals of every width) are sources as well.",
         note="The accept/reject half is decided at compile time (plain enumeration). Forms and pairs the statement does not list are 'either rejected or value preserving'. Known finding: equal-width BitVector<->Unsigned/Signed port connections are emitted without type conversion.",
         technique="enumerated conversion cases compiled by the real compiler; accepted ones simulated exhaustively over source values (seeded order / process order) vs the statement's conversion matrix",
         ref="6/C05",
